@@ -146,6 +146,15 @@ def check_images(chunk):
                     continue
                 gw.update_fw(nodes, ftype, fver, fw_path=path)
                 fetch(gw, nodes, ftype, fver, image, order_name, viols, stats, rep, label)
+                if length % 5 == 0 and length <= 2304:
+                    # a new image pushed under the same (type, version) on the same gateway replaces the old one
+                    image2 = bytes((b + 1 + i) & 0xFF for i, b in enumerate(image)) + b"\x01\x02\x03"
+                    path2 = os.path.join(d, "fw2.hex")
+                    with open(path2, "w", encoding="utf-8") as fh:
+                        fh.write(intel_hex(image2, rec, ela, None))
+                    gw.update_fw(nodes, ftype, fver, fw_path=path2)
+                    stats["replaced_images"] += 1
+                    fetch(gw, nodes, ftype, fver, image2, "ascending", viols, stats, rep, label + "|replaced-image")
             except Exception as exc:  # pylint: disable=broad-except
                 viols.append(Violation(PROP, f"raises|{type(exc).__name__}", f"image of {length} bytes ({family}): {type(exc).__name__}: {short(str(exc))}", rep))
             if not samples:
